@@ -118,7 +118,13 @@ int main(int argc, char **argv) {
           if (t == xcmp::Token::IDENTIFIER) text = lx.getIdentifier();
           else if (t == xcmp::Token::NUMBER) { val = lx.getNumber(); text = std::to_string(val); }
           else if (t == xcmp::Token::STRING) text = lx.getString();
-          toks += std::string(n ? "," : "") + "[\"" + jesc(xcmp::tokenEnumStr(t)) + "\",\"" + jesc(text) + "\"," + std::to_string(val) + "]";
+          std::string third = std::to_string(val);
+          if (t == xcmp::Token::STRING) {
+            third = "[";
+            for (size_t i = 0; i < text.size(); i++) third += std::string(i ? "," : "") + std::to_string((int)(unsigned char)text[i]);
+            third += "]";
+          }
+          toks += std::string(n ? "," : "") + "[\"" + jesc(xcmp::tokenEnumStr(t)) + "\",\"" + jesc(text) + "\"," + third + "]";
           if (t == xcmp::Token::END_OF_FILE) break;
         }
       } catch (const std::exception &) { toks += std::string(toks.size() > 1 ? "," : "") + "[\"ERROR\",\"\",0]"; }
